@@ -7,13 +7,20 @@
 // replacement by another object; always by replacing the file). `git lfs fsck`
 // is then run on a private copy of the repository for every combination of
 // revision argument form {none, <commit>, A..B} x {default, --objects,
-// --pointers} x {--dry-run, not}, some plans with lfs.fetchexclude set.
+// --pointers} x {--dry-run, not}, some plans with lfs.fetchexclude set. About one pair
+// in five keeps its copy and goes through one or two further rounds {restore some
+// objects from the known-good contents, damage again (preferably the objects an
+// earlier fsck already moved to lfs/bad; sometimes an unrelated file is put at
+// lfs/bad/<oid> first), fsck}, every run judged by the same oracle (rounds.go).
 //
 // Coordinates that get their own trigger (candidate genuine defects, see the report to the lead):
 //   nested-gitattributes-subdir          a path tracked only through a .gitattributes in an ancestor
 //                                        directory that is neither the top level nor its own directory
 //   index-only-quoted-path/fetchexclude  a damaged object referenced only by a staged entry whose path
 //                                        git C-quotes (non-ASCII), matching lfs.fetchexclude
+//   second-repair-of-same-oid            (later rounds) lfs/bad/<oid> exists because an earlier fsck of the
+//                                        case moved the same object there; it was restored and damaged again
+//   preexisting-unrelated-bad-file       (later rounds) the generator put an unrelated file at lfs/bad/<oid>
 //
 // Oracle (no git-lfs code): plain git plumbing with filters disabled + ptrspec +
 // git check-attr on a temporary index + git check-ignore + SHA-256 of the files
@@ -94,6 +101,12 @@ type planInfo struct {
 	Args    map[string]argSpec
 	Snap    map[string]sbx.StoreEntry
 	Expects map[string]*expectation
+
+	// later rounds of a multi-round case (rounds.go); zero values in round 1
+	Round    int             // 0/1 = first fsck on this repository state, n = n-th {restore, damage, fsck} round on the same copy
+	Repaired map[string]bool // oids that an earlier `git lfs fsck` of this case moved to lfs/bad/<oid>
+	Planted  map[string]bool // oids for which the generator wrote an unrelated file lfs/bad/<oid> before this run
+	RoundLog []string        // every generator step and fsck run of the earlier rounds, for replay
 }
 
 type repoCase struct {
@@ -217,9 +230,12 @@ var modes = []struct {
 // runPair runs the --dry-run variant and then the real variant of one (argument form, mode) on a
 // private copy of the damaged repository; the copy is reused for the second run only if the first
 // left .git/lfs exactly as it was (same files, hashes, inodes).
-func (rc *repoCase) runPair(pl *planInfo, form string, mi int) {
+//
+// rr != nil makes this pair the first round of a multi-round case: the copy is kept after the real
+// run and goes through further {restore, damage again, fsck} rounds (rounds.go).
+func (rc *repoCase) runPair(pl *planInfo, form string, mi int, rr *rand.Rand) {
 	var dir string
-	var snap map[string]sbx.StoreEntry
+	var snap, after map[string]sbx.StoreEntry
 	for _, dry := range []bool{true, false} {
 		if dir == "" {
 			rc.mu.Lock()
@@ -231,15 +247,16 @@ func (rc *repoCase) runPair(pl *planInfo, form string, mi int) {
 			snap = sbx.SnapshotLFS(filepath.Join(dir, ".git"))
 			rc.run.Count("repository_copies", 1)
 		}
-		after := rc.runOne(pl, form, mi, dry, dir, snap)
-		if after == nil || snapDiff(snap, after) != "" {
+		after = rc.runOne(pl, form, mi, dry, dir, snap)
+		if dry && (after == nil || snapDiff(snap, after) != "") {
 			os.RemoveAll(dir)
 			dir = ""
 		}
 	}
-	if dir != "" {
-		os.RemoveAll(dir)
+	if rr != nil && after != nil {
+		rc.runRounds(pl, form, mi, dir, snap, after, rr)
 	}
+	os.RemoveAll(dir)
 }
 
 func (rc *repoCase) runOne(pl *planInfo, form string, mi int, dry bool, runDir string, before map[string]sbx.StoreEntry) (after map[string]sbx.StoreEntry) {
@@ -285,9 +302,49 @@ func (rc *repoCase) runOne(pl *planInfo, form string, mi int, dry bool, runDir s
 		outcome = "pointers-bad"
 	}
 	class := fmt.Sprintf("%s/%s/%s/%s/%s", form, mode.Name, dryS, fxS, outcome)
+	// later rounds: does the reference model expect an object to be moved whose lfs/bad/<oid> already exists?
+	nRepeat, nPlanted := 0, 0
+	if mode.Obj {
+		for oid := range ex.ObjRequired {
+			if _, existed := before[objRel(oid)]; !existed {
+				continue
+			}
+			if _, has := before["bad/"+oid]; !has {
+				continue
+			}
+			if pl.Repaired[oid] {
+				nRepeat++
+			} else if pl.Planted[oid] {
+				nPlanted++
+			}
+		}
+	}
+	if pl.Round >= 2 {
+		switch {
+		case nRepeat > 0:
+			class += "/later-round/repeat-repair-of-same-oid"
+		case nPlanted > 0:
+			class += "/later-round/preexisting-bad-file"
+		default:
+			class += "/later-round"
+		}
+	}
 	base := map[string]any{"repo_case": rc.idx, "plan": pl.Idx, "class": class, "argv": append([]string{"git-lfs"}, args...), "arg_spelling": as.Spelled,
 		"fetchexclude": strings.Join(pl.Fx, ","), "exit": res.Code, "expected": ex.String(), "damage": pl.Damage}
+	if pl.Round >= 2 {
+		base["round"] = pl.Round
+		base["earlier_rounds"] = pl.RoundLog
+	}
 	run.Case(class, base)
+	if pl.Round >= 2 {
+		run.Count(fmt.Sprintf("fsck_runs_round_%d", pl.Round), 1)
+		if !dry {
+			run.Count("repeat_repairs_same_oid", int64(nRepeat))
+			run.Count("repairs_with_preexisting_unrelated_bad_file", int64(nPlanted))
+		} else {
+			run.Count("repeat_repairs_same_oid_dry_run", int64(nRepeat))
+		}
+	}
 	run.Count(fmt.Sprintf("fsck_runs_%s_%s_%s", form, mode.Name, dryS), 1)
 	run.Count("fsck_runs_arg_spelled_"+as.Spelled, 1)
 	if len(pl.Fx) > 0 {
@@ -473,7 +530,7 @@ func (rc *repoCase) runOne(pl *planInfo, form string, mi int, dry bool, runDir s
 	// (3) corrupt objects are moved to lfs/bad, byte-identical, never deleted
 	if !dry && mode.Obj {
 		for _, oid := range histgen.SortedKeys(objReq) {
-			rel := "objects/" + oid[0:2] + "/" + oid[2:4] + "/" + oid
+			rel := objRel(oid)
 			b, existed := before[rel]
 			if !existed {
 				continue // a missing object is named but cannot be moved
@@ -482,6 +539,22 @@ func (rc *repoCase) runOne(pl *planInfo, form string, mi int, dry bool, runDir s
 			bad, inBad := after["bad/"+oid]
 			_, still := after[rel]
 			trig := form + "-arg/" + rc.kindOfOid(pl, oid) + fxT
+			if _, pre := before["bad/"+oid]; pre {
+				// Later rounds only (round 1 starts without lfs/bad): a file lfs/bad/<oid> existed before
+				// the run, left by an earlier repair of the same object or put there by the generator.
+				// The statement says "moved aside rather than deleted": demanded is that the corrupt file
+				// leaves lfs/objects and that its bytes exist under lfs/bad afterwards (under whatever
+				// name; nothing is demanded about the older file).
+				trig = rc.preBadTrigger(pl, oid, trig)
+				run.Count("bad_files_compared_with_preexisting_bad_file", 1)
+				switch {
+				case still:
+					viol("corrupt-object-not-moved", trig, fmt.Sprintf("corrupt object %s was named but is still in lfs/objects (lfs/bad/%s existed before the run)", oid, oid))
+				case !badHolds(after, oid, b):
+					viol("corrupt-object-deleted", trig, fmt.Sprintf("corrupt object %s is gone from lfs/objects and no file under lfs/bad holds its bytes (sha %s, %d bytes; lfs/bad/%s existed before the run)", oid, b.Sha, b.Size, oid))
+				}
+				continue
+			}
 			switch {
 			case !inBad && !still:
 				viol("corrupt-object-deleted", trig, fmt.Sprintf("corrupt object %s is gone from lfs/objects and absent from lfs/bad", oid))
@@ -518,7 +591,13 @@ func (rc *repoCase) runOne(pl *planInfo, form string, mi int, dry bool, runDir s
 		// disappeared: must have been a named, judged-corrupt object and must sit in bad/
 		bad, inBad := after["bad/"+oid]
 		trig := form + "-arg/" + rc.kindOfOid(pl, oid) + fxT
-		if !inBad || bad.Sha != b.Sha {
+		if _, pre := before["bad/"+oid]; pre {
+			// later rounds only, see (3): the bytes must exist under lfs/bad
+			trig = rc.preBadTrigger(pl, oid, trig)
+			if !badHolds(after, oid, b) {
+				viol("corrupt-object-deleted", trig, fmt.Sprintf("object file %s disappeared from lfs/objects and no file under lfs/bad holds its bytes", oid))
+			}
+		} else if !inBad || bad.Sha != b.Sha {
 			viol("corrupt-object-deleted", trig, fmt.Sprintf("object file %s disappeared from lfs/objects without a byte-identical copy in lfs/bad", oid))
 		}
 		if _, named := rp.Objects[oid]; named && mode.Obj && ex.ObjExcluded[oid] {
@@ -707,12 +786,13 @@ func (rc *repoCase) makePlan(k int) *planInfo {
 func main() {
 	run := evid.New("C13", "exploration")
 	defer sbx.RemoveBase()
-	run.Rule = "seeded repositories (histgen: branches, merges incl. octopus, orphan branches, tags, renames/copies/deletes, files moving in and out of LFS tracking, nested .gitattributes, symlinks, exec bits, empty files) extended with commits holding, under tracked patterns, non-canonical pointer text (CRLF, extra/missing final newline, legacy version URL, keys out of order, extra key) and raw content (<1024, 1023, 1024, >1024 bytes, padded pointer) added with the filters disabled, untracked raw / pointer files, staged-only LFS / raw files, and (a quarter of the repositories) a nested .gitattributes whose basename pattern tracks raw files in its own directory and one level deeper; per repository several seeded corruption plans over the local objects {deletion, truncation, extension, bit flip, replacement by another object} incl. the empty plan; per plan `git lfs fsck` on a private copy for revision argument {none, <commit> spelled as sha/branch/tag/relative, A..B incl. empty and non-ancestor ranges} x {default, --objects, --pointers, --objects --pointers (a third)} x {--dry-run, not}, a third of the plans with lfs.fetchexclude. Oracle: plain git plumbing + ptrspec + git check-attr on a temporary index + git check-ignore + SHA-256/inode snapshots of .git/lfs before and after. Class = (argument form, mode, dry-run, fetchexclude, reference outcome)."
+	run.Rule = "seeded repositories (histgen: branches, merges incl. octopus, orphan branches, tags, renames/copies/deletes, files moving in and out of LFS tracking, nested .gitattributes, symlinks, exec bits, empty files) extended with commits holding, under tracked patterns, non-canonical pointer text (CRLF, extra/missing final newline, legacy version URL, keys out of order, extra key) and raw content (<1024, 1023, 1024, >1024 bytes, padded pointer) added with the filters disabled, untracked raw / pointer files, staged-only LFS / raw files, and (a quarter of the repositories) a nested .gitattributes whose basename pattern tracks raw files in its own directory and one level deeper; per repository several seeded corruption plans over the local objects {deletion, truncation, extension, bit flip, replacement by another object} incl. the empty plan; per plan `git lfs fsck` on a private copy for revision argument {none, <commit> spelled as sha/branch/tag/relative, A..B incl. empty and non-ancestor ranges} x {default, --objects, --pointers, --objects --pointers (a third)} x {--dry-run, not}, a third of the plans with lfs.fetchexclude; one pair in five continues on the same copy for 1-2 further rounds {restore some of the missing/corrupt objects (written back or via `git lfs clean`), damage again - preferably objects an earlier fsck moved to lfs/bad, so that the same oid is repaired twice, some with an unrelated pre-existing file lfs/bad/<oid> -, fsck with a fresh mode, half of them --dry-run first}. Oracle: plain git plumbing + ptrspec + git check-attr on a temporary index + git check-ignore + SHA-256/inode snapshots of .git/lfs before and after. Class = (argument form, mode, dry-run, fetchexclude, reference outcome[, later round: repeated repair of an oid / pre-existing lfs/bad/<oid> / neither])."
 	run.Assumptions = []string{
 		"git 2.39.5; Git's check-attr --cached on a read-tree'd temporary index is the authority on which paths are LFS-tracked in a commit; git check-ignore is the authority on gitignore(5) matching of lfs.fetchexclude",
 		"A..B for objects: an object MUST be named only if a canonical pointer to it occurs in a tree of a commit of `git rev-list A..B` and that blob occurs in no tree of a commit reachable from A; any object referenced from a tree of a commit of the range MAY be named",
 		"objects named only by non-canonical-but-parseable pointer text, objects referenced through both excluded and non-excluded paths, pointer problems at fetchexclude'd paths and pointer problems that exist only in the index are not judged (may be named, need not)",
 		"a damaged object whose every referencing path matches lfs.fetchexclude must not be checked (man page: 'will not be checked for consistency')",
+		"when lfs/bad/<oid> exists before a run (later rounds), 'moved aside rather than deleted' is read as: the corrupt file leaves lfs/objects and its bytes exist in some file under lfs/bad afterwards; nothing is demanded about the older file at lfs/bad/<oid>",
 		"pointer problems are compared kind-agnostically: a problem path counts as named by an unexpectedGitObject line with its path or by a nonCanonicalPointer line with its blob id",
 	}
 	nRepos := run.N(16, 150)
@@ -746,20 +826,33 @@ func main() {
 				pwg.Add(1)
 				go func(k int) {
 					defer pwg.Done()
+					var pl *planInfo
 					sem <- struct{}{}
-					defer func() { <-sem }()
-					guard(fmt.Sprintf("case %d plan %d", i, k), func() {
-						pl := rc.makePlan(k)
-						defer os.RemoveAll(pl.Dir)
-						for fi, form := range []string{"none", "commit", "range"} {
-							for mi := range modes {
-								if mi == 3 && (k+fi+i)%3 != 0 {
-									continue
-								}
-								rc.runPair(pl, form, mi)
+					guard(fmt.Sprintf("case %d plan %d", i, k), func() { pl = rc.makePlan(k) })
+					<-sem
+					if pl == nil {
+						return
+					}
+					defer os.RemoveAll(pl.Dir)
+					// every (form, mode) pair works on its own copy of the damaged repository: one task each
+					var qwg sync.WaitGroup
+					for fi, form := range []string{"none", "commit", "range"} {
+						for mi := range modes {
+							if mi == 3 && (k+fi+i)%3 != 0 {
+								continue
 							}
+							qwg.Add(1)
+							go func(fi int, form string, mi int) {
+								defer qwg.Done()
+								sem <- struct{}{}
+								defer func() { <-sem }()
+								guard(fmt.Sprintf("case %d plan %d %s/%s", i, k, form, modes[mi].Name), func() {
+									rc.runPair(pl, form, mi, rc.multiRound(k, fi, mi))
+								})
+							}(fi, form, mi)
 						}
-					})
+					}
+					qwg.Wait()
 				}(k)
 			}
 			pwg.Wait()
